@@ -487,13 +487,22 @@ class TimeDelta:
         else:
             return NotImplemented
 
+    def _compare_hightime_timedelta(self, value: ht.timedelta) -> int:
+        """Compare self, promoted to hightime, with value: negative, zero or positive."""
+        try:
+            promoted = self._to_hightime_timedelta()
+        except OverflowError:
+            # self is beyond the range of hightime.timedelta, and so beyond every value of it.
+            return -1 if self._ticks < 0 else 1
+        return (promoted > value) - (promoted < value)
+
     # In comparison operators, always promote to the more precise data type (dt -> bt, bt -> ht).
     def __lt__(self, value: TimeDelta | _OtherTimeDelta, /) -> bool:
         """Return self<value."""
         if isinstance(value, self.__class__):
             return self._ticks < value._ticks
         elif isinstance(value, ht.timedelta):
-            return self._to_hightime_timedelta() < value
+            return self._compare_hightime_timedelta(value) < 0
         elif isinstance(value, dt.timedelta):
             return self < self.__class__(value)
         else:
@@ -504,7 +513,7 @@ class TimeDelta:
         if isinstance(value, self.__class__):
             return self._ticks <= value._ticks
         elif isinstance(value, ht.timedelta):
-            return self._to_hightime_timedelta() <= value
+            return self._compare_hightime_timedelta(value) <= 0
         elif isinstance(value, dt.timedelta):
             return self <= self.__class__(value)
         else:
@@ -515,7 +524,7 @@ class TimeDelta:
         if isinstance(value, self.__class__):
             return self._ticks == value._ticks
         elif isinstance(value, ht.timedelta):
-            return self._to_hightime_timedelta() == value
+            return self._compare_hightime_timedelta(value) == 0
         elif isinstance(value, dt.timedelta):
             return self == self.__class__(value)
         else:
@@ -526,7 +535,7 @@ class TimeDelta:
         if isinstance(value, self.__class__):
             return self._ticks > value._ticks
         elif isinstance(value, ht.timedelta):
-            return self._to_hightime_timedelta() > value
+            return self._compare_hightime_timedelta(value) > 0
         elif isinstance(value, dt.timedelta):
             return self > self.__class__(value)
         else:
@@ -537,7 +546,7 @@ class TimeDelta:
         if isinstance(value, self.__class__):
             return self._ticks >= value._ticks
         elif isinstance(value, ht.timedelta):
-            return self._to_hightime_timedelta() >= value
+            return self._compare_hightime_timedelta(value) >= 0
         elif isinstance(value, dt.timedelta):
             return self >= self.__class__(value)
         else:
